@@ -32,12 +32,19 @@ def run(eng, pool, rng, oc, n, today, prop):
     pages = [apage.gen_apage(rng) for _ in range(n)]
     texts = [apage.render(p) for p in pages]
     results = pool.map(fcwork.compile_job, [(t, today, True) for t in texts], chunksize=8)
+    invalid = 0
     for pg, text, res in zip(pages, texts, results):
         oc.evaluations += 1
         case = {"page_text": text, "apage": pg}
-        if not eng.call("page_valid", pg):
-            oc.corr_mismatch.append(("theorem hypothesis valid_pageb on a generated page", case, None, False))
-            return False
+        if not (eng.call("page_valid", pg) == "t"):
+            # outside the theorem's domain: nothing is claimed about this page (the generator aims at valid pages only;
+            # more than a few invalid ones means the domain and the generator have drifted apart)
+            oc.count("theorem_hypothesis_false")
+            invalid += 1
+            if invalid > max(3, n // 10):
+                oc.corr_mismatch.append(("theorem hypothesis valid_pageb fails on too many generated pages", case, None, False))
+                return False
+            continue
         spec = [fc.model_note(m) for m in eng.call("page_spec", list(today), pg)]
         # (3) the property itself on the implementation: exactly the notes written, in order, with their metadata
         bad = None
